@@ -41,7 +41,7 @@ def World.get? (w : World) (n : String) : Option MapObj :=
         -- cells of field `i` (always the case unless the parent's name was rebound meanwhile)
         if m.sent != recField i (p.kind.blank p.sent) then none else
         match materializeView p pn i m.sent m.cache with
-        | .ok v => some v
+        | .ok v => if v.kind == m.kind && m.kind != .plain .bool then some v else none   -- same field dtype as when taken
         | .error _ => none
 
 /-- store a map; storing through a view name writes the field column back into the parent -/
@@ -55,6 +55,12 @@ def World.put (w : World) (n : String) (m : MapObj) : World :=
           w.pool.filter (fun e => e.1 != n && e.1 != pn) }
     | none => w
   | _, _ => { w with pool := (n, { m with view := none }) :: w.pool.filter (·.1 != n) }
+
+/-- bind a name to a freshly produced map (`cfg`, every `r=` result, files read): the new object
+    owns its storage whatever the name referred to before (a Python name is simply rebound;
+    only IN-PLACE operations go through `put` and may write through a view) -/
+def World.bind (w : World) (n : String) (m : MapObj) : World :=
+  { w with pool := (n, { m with view := none }) :: w.pool.filter (·.1 != n) }
 
 def parseKind (a : Args) : Option Kind :=
   match a.getD "kind" "" with
@@ -90,7 +96,7 @@ def opCfg (w : World) (a : Args) : World × String :=
           parseNats (a.getD "covpix" "_") with
     | n :: _, some kind, some co, some so, some sent, some cp =>
       match apiMakeEmpty co so kind sent cp with
-      | .ok m => (w.put n m, "ok")
+      | .ok m => (w.bind n m, "ok")
       | .error e => (w, errLine e)
     | _, _, _, _, _, _ => (w, "bad-op:cfg")
 
@@ -161,7 +167,7 @@ def opSop (w : World) (a : Args) : World × String :=
       match apiScalarOp m (a.getD "op" "add") k with
       | .ok st =>
         if inPlace then (w.put n { m0 with st := st }, "ok")
-        else (w.put (a.getD "r" "tmp") { m with st := st, cache := none }, "ok")
+        else (w.bind (a.getD "r" "tmp") { m with st := st, cache := none }, "ok")
       | .error e =>
         -- the cache reset happens only after the first validation checks (line 2376)
         let early := (match m.kind with | .recd _ _ => true | _ => false) || m.kind.isBool ||
@@ -180,7 +186,7 @@ def opMask (w : World) (a : Args) : World × String :=
       match apiApplyMask m mk bits arr with
       | .ok st =>
         if a.flag "inplace" then (w.put n { m with st := st, cache := none }, "ok")
-        else (w.put (a.getD "r" "tmp") { m with st := st, cache := none }, "ok")
+        else (w.bind (a.getD "r" "tmp") { m with st := st, cache := none }, "ok")
       | .error e => (w, errLine e)
 
 def opAstype (w : World) (a : Args) : World × String :=
@@ -188,7 +194,7 @@ def opAstype (w : World) (a : Args) : World × String :=
     match (a.get? "dtype").bind parseDT, optVal a "sentinel" with
     | some dt, some sent =>
       (match apiAstype m dt sent with
-       | .ok m' => (w.put (a.getD "r" "tmp") m', "ok")
+       | .ok m' => (w.bind (a.getD "r" "tmp") m', "ok")
        | .error e => (w, errLine e))
     | _, _ => (w, "bad-op:astype")
 
@@ -198,7 +204,7 @@ def opPack (w : World) (a : Args) : World × String :=
     | .ok m' =>
       let r := a.getD "r" "tmp"
       let cur := ((w.metas.find? (·.1 == a.pos.headD "")).map (·.2)).getD []
-      let w := w.put r m'
+      let w := w.bind r m'
       -- `metadata=self.metadata` (a packed source goes through copy(), which drops it)
       ({ w with metas := (r, if m.kind == .packed then [] else cur) :: w.metas.filter (·.1 != r) }, "ok")
     | .error e => (w, errLine e)
@@ -219,7 +225,7 @@ def opBop (w : World) (a : Args) : World × String :=
       match apiBoolOp m (a.getD "op" "and") rhs inPlace with
       | .ok st =>
         if inPlace then (w.put n { m with st := st, cache := none }, "ok")
-        else (w.put (a.getD "r" "tmp") { m with st := st, cache := none }, "ok")
+        else (w.bind (a.getD "r" "tmp") { m with st := st, cache := none }, "ok")
       | .error e => ((if inPlace && m.kind.isBool then w.put n { m with cache := none } else w), errLine e)
 
 def opInv (w : World) (a : Args) : World × String :=
@@ -228,7 +234,7 @@ def opInv (w : World) (a : Args) : World × String :=
     match apiInvert m with
     | .ok st =>
       if a.flag "inplace" then (w.put n { m with st := st, cache := none }, "ok")
-      else (w.put (a.getD "r" "tmp") { m with st := st, cache := none }, "ok")
+      else (w.bind (a.getD "r" "tmp") { m with st := st, cache := none }, "ok")
     | .error e => (w, errLine e)
 
 def opBits (w : World) (a : Args) : World × String :=
@@ -251,7 +257,7 @@ def opChk (w : World) (a : Args) : World × String :=
     | _, _ => (w, "bad-op:chk")
 
 def opCopy (w : World) (a : Args) : World × String :=
-  withMap w a fun m => (w.put (a.getD "r" "tmp") { m with cache := none }, "ok")
+  withMap w a fun m => (w.bind (a.getD "r" "tmp") { m with cache := none }, "ok")
 
 def opInfo (w : World) (a : Args) : World × String :=
   withMap w a fun m =>
@@ -286,7 +292,7 @@ def opMop (w : World) (a : Args) : World × String :=
         (w, if maps.length < 2 then errLine .runtime else errLine .notImpl)
       | some row =>
         match apiMultiOp row maps with
-        | .ok m => (w.put (a.getD "r" "tmp") m, "ok")
+        | .ok m => (w.bind (a.getD "r" "tmp") m, "ok")
         | .error e => (w, errLine e)
 
 def opDeg (w : World) (a : Args) : World × String :=
@@ -301,7 +307,7 @@ def opDeg (w : World) (a : Args) : World × String :=
       | none => (w, "bad-op:no-such-map")
       | some wm =>
         match apiDegrade m ord (a.getD "red" "mean") wm with
-        | .ok r => (w.put (a.getD "r" "tmp") r, "ok")
+        | .ok r => (w.bind (a.getD "r" "tmp") r, "ok")
         | .error e => (w, errLine e)
 
 def opUpg (w : World) (a : Args) : World × String :=
@@ -310,7 +316,7 @@ def opUpg (w : World) (a : Args) : World × String :=
     | none => (w, "bad-op:ord")
     | some ord =>
       match apiUpgrade m ord with
-      | .ok r => (w.put (a.getD "r" "tmp") r, "ok")
+      | .ok r => (w.bind (a.getD "r" "tmp") r, "ok")
       | .error e => (w, errLine e)
 
 def opMoc (w : World) (a : Args) : World × String :=
@@ -329,7 +335,7 @@ def opMocread (w : World) (a : Args) : World × String :=
       (match apiMakeEmpty co mo (.plain .bool) none [] with
        | .ok e =>
          (match apiUpdate e "replace" ps (some [.bool true]) true with
-          | .ok m => (w.put (a.getD "r" "tmp") { m with cache := none }, "ok")
+          | .ok m => (w.bind (a.getD "r" "tmp") { m with cache := none }, "ok")
           | .error er => (w, errLine er))
        | .error er => (w, errLine er))
     | _, _ => (w, "bad-op:no-such-map")
@@ -343,7 +349,7 @@ def opSingle (w : World) (a : Args) : World × String :=
         (w, "bad-op:single-of-boolean-field") else
       if a.flag "copy" then
         (match apiGetSingleCopy m i sent with
-         | .ok r => (w.put (a.getD "r" "tmp") r, "ok")
+         | .ok r => (w.bind (a.getD "r" "tmp") r, "ok")
          | .error e => (w, errLine e))
       else
         (match singleSentinel m i sent with
@@ -355,7 +361,7 @@ def opSingle (w : World) (a : Args) : World × String :=
            let n := a.pos.headD ""
            let r := a.getD "r" "tmp"
            -- register the view descriptor (storage is always taken from the parent)
-           ({ w with pool := (r, { m with kind := .plain .bool, sent := s, st := ⟨#[], #[]⟩, cache := none,
+           ({ w with pool := (r, { m with kind := .plain dt, sent := s, st := ⟨#[], #[]⟩, cache := none,
                                           view := some (n, i) }) :: w.pool.filter (·.1 != r) }, "ok")
          | .error e => (w, errLine e))
     | _, _ => (w, "bad-op:single")
@@ -366,7 +372,7 @@ def opScov (w : World) (a : Args) : World × String :=
     | none => (w, "bad-op:k")
     | some k =>
       if k ≥ m.c.ncov then (w, errLine .index) else
-      (w.put (a.getD "r" "tmp") { m with st := singleCovpixMap m.c m.vc m.st k, cache := none }, "ok")
+      (w.bind (a.getD "r" "tmp") { m with st := singleCovpixMap m.c m.vc m.st k, cache := none }, "ok")
 
 def opMeta (w : World) (a : Args) : World × String :=
   withMap w a fun _ =>
@@ -401,7 +407,7 @@ def opRead (w : World) (a : Args) : World × String :=
         match apiRead fo px with
         | .ok m =>
           let r := a.getD "r" "tmp"
-          let w := w.put r m
+          let w := w.bind r m
           ({ w with metas := (r, fo.mdata) :: w.metas.filter (·.1 != r) }, "ok")
         | .error e => (w, errLine e)
 
@@ -437,7 +443,7 @@ def opDor (w : World) (a : Args) : World × String :=
        | .error e => (w, errLine e)
        | .ok m =>
          match apiDegrade m ord (a.getD "red" "mean") none with
-         | .ok d => (w.put (a.getD "r" "tmp") { d with cache := none }, "ok")
+         | .ok d => (w.bind (a.getD "r" "tmp") { d with cache := none }, "ok")
          | .error e => (w, errLine e))
     | _, _, _ =>
     match (w.files.find? (·.1 == a.getD "f" "f")).map (·.2), a.nat? "ord" with
@@ -453,7 +459,7 @@ def opDor (w : World) (a : Args) : World × String :=
          (match apiDegradeOnRead fo ord (a.getD "red" "mean") px wf with
           | .ok m =>
             let r := a.getD "r" "tmp"
-            let w := w.put r m
+            let w := w.bind r m
             ({ w with metas := (r, fo.mdata) :: w.metas.filter (·.1 != r) }, "ok")
           | .error e => (w, errLine e))
        | _, _ => (w, "bad-op:dor"))
@@ -481,7 +487,7 @@ def opFromhp (w : World) (a : Args) : World × String :=
        | none => (w, "bad-op:r2n")
        | some nest =>
          match apiFromHealpix co so dt sent nest (a.getD "senttype" (if dt.isInt then "int" else "flt") == "int") with
-         | .ok m => (w.put (a.getD "r" "tmp") m, "ok")
+         | .ok m => (w.bind (a.getD "r" "tmp") m, "ok")
          | .error e => (w, errLine e))
     | _, _, _, _, _ => (w, "bad-op:fromhp")
 
@@ -537,7 +543,7 @@ def opHpxread (w : World) (a : Args) : World × String :=
     | some f, some co =>
       let r2n := (a.get? "r2n").bind parseNats |>.map List.toArray
       (match apiReadHealpix f co r2n with
-       | .ok m => (w.put (a.getD "r" "tmp") { m with cache := none }, "ok")
+       | .ok m => (w.bind (a.getD "r" "tmp") { m with cache := none }, "ok")
        | .error e => (w, errLine e))
     | none, _ => (w, "bad-op:no-such-map")
     | _, _ => (w, "bad-op:hpxread")
@@ -608,7 +614,7 @@ def opGeom (w : World) (a : Args) : World × String :=
         | .error e => (w.put n { m with cache := none }, errLine e)
       else if mode == "or" then
         match apply { m with cache := none } op with
-        | .ok m' => (w.put (a.getD "r" "tmp") { m' with cache := none }, "ok")
+        | .ok m' => (w.bind (a.getD "r" "tmp") { m' with cache := none }, "ok")
         | .error e => (w, errLine e)
       else if mode == "realize" then
         -- realize_geom: integer map; bit lists only on wide masks; integer value within the dtype
@@ -657,7 +663,7 @@ def opGeom (w : World) (a : Args) : World × String :=
                   | some v => apiUpdate e "replace" (expand R) (some [v]) true
                   | none => .error (.bad "value"))
             match res with
-            | .ok r => (w.put (a.getD "r" "tmp") { r with cache := none }, "ok")
+            | .ok r => (w.bind (a.getD "r" "tmp") { r with cache := none }, "ok")
             | .error er => (w, errLine er)
       else (w, "bad-op:mode")
 
@@ -741,8 +747,8 @@ def opFracdet (w : World) (a : Args) : World × String :=
       let g := 2 * (m.spord - ord)
       let fs := fracdetCounts m.c m.vc m.st g
       let sp : Array Val := fs.sp.map fun (n : Nat) => let x := dyNorm ((n : Nat) : Int) g; Val.num x.1 x.2
-      (w.put r { covord := m.covord, spord := ord, kind := .plain (.flt 64), sent := .num 0 0,
-                 st := ⟨fs.cov, sp⟩ }, "ok")
+      (w.bind r { covord := m.covord, spord := ord, kind := .plain (.flt 64), sent := .num 0 0,
+                  st := ⟨fs.cov, sp⟩ }, "ok")
     | _, _ => (w, "bad-op:fracdet")
 
 def opCovmask (w : World) (a : Args) : World × String :=
